@@ -83,7 +83,7 @@ def fault_for(i, k):
     return FAULT_CLASSES[(i * 7 + (k or 0)) % len(FAULT_CLASSES)]
 
 
-async def _situation(loop, sit, backend, k, repeat_name=None, pipelined=False, fault_class=0):
+async def _situation(loop, sit, backend, k, repeat_name=None, pipelined=False, fault_class=0, parked=False):
     name, prep, cmd, shape, needs_data = sit
     spy = spyio.Spy()
     wd = W.World(loop, S.USERS_ANON, backend=backend, spy=spy, server_kwargs={"block_size": BLOCK})
@@ -100,6 +100,11 @@ async def _situation(loop, sit, backend, k, repeat_name=None, pipelined=False, f
             await W.data_connect(wd, a)
         for p in prep:
             await W.run_line(wd, a, p.encode())
+        if parked and not needs_data:
+            # a data connection made ahead of time (for the NEXT transfer) is parked at the server while the
+            # faulting command runs
+            await W.run_line(wd, a, b"EPSV")
+            await W.data_connect(wd, a)
         n0 = spy.n
         spy.name_count = {}
         if k is not None:
@@ -140,9 +145,18 @@ async def _situation(loop, sit, backend, k, repeat_name=None, pipelined=False, f
         spy.fail_at.clear()
         spy.fail_name.clear()
         # the session is still usable: a plain command and a full transfer
+        parked_data = a.data
+        a.keep_data = bool(parked and parked_data is not None)
         c1, _, _, _ = await W.run_line(wd, a, b"PWD")
-        await W.run_line(wd, a, b"EPSV")
-        await W.data_connect(wd, a)
+        conn_a = wd.connection_of(a)
+        # the client made that connection for its next transfer and uses it as long as the SERVER still has it
+        # registered (whether the server's end is still open is exactly what is being looked at)
+        still_parked = parked and parked_data is not None and conn_a is not None and wd._get(conn_a, "data_connection")[0]
+        res["follow_uses_parked_data_connection"] = bool(still_parked)
+        if not still_parked:
+            a.keep_data = False
+            await W.run_line(wd, a, b"EPSV")
+            await W.data_connect(wd, a)
         c2, _, out2, _ = await W.run_line(wd, a, b"RETR /d/g.txt")
         res["follow_pwd"] = c1
         res["follow_retr"] = (c2, out2)
@@ -164,8 +178,9 @@ def _job(args):
     idx, backend, k, rep = args[:4]
     pipelined = len(args) > 4 and args[4]
     fc = args[5] if len(args) > 5 else 0
+    parked = len(args) > 6 and args[6]
     try:
-        return simnet.run(_situation, SITUATIONS[idx], backend, k, rep, pipelined, fc)
+        return simnet.run(_situation, SITUATIONS[idx], backend, k, rep, pipelined, fc, parked)
     except BaseException as e:  # noqa
         return "HARNESS-ERROR %s: %s" % (type(e).__name__, e)
 
@@ -227,6 +242,9 @@ def _run(ctx, compare=True):
             if not SITUATIONS[i][4]:
                 for k in range(len(r["calls"])):
                     jobs.append((i, be, k, None, True))
+            # the follow-up transfer uses a data connection that was parked while the command failed
+            for k in range(len(r["calls"])):
+                jobs.append((i, be, k, None, False, 0, True))
         outs = pool.map(_job, jobs, chunksize=4)
     lines, expect = [], []
     # 1. fault-free call sequences vs the model's programs
@@ -269,10 +287,17 @@ def _run(ctx, compare=True):
                     "signature": "C13:pipelined-command-lost:%s" % sit[2].split(" ")[0].lower(),
                 })
             continue
+        parked = len(job) > 6 and job[6]
         f = oracle(sit, be, k, rep, r)
         if f:
             f["input"]["fault_class"] = FAULT_CLASSES[fc][0]
+            if parked:
+                f["input"]["parked_data_connection"] = True
+                f["what"] += " (a data connection was parked at the server while the command failed: the follow-up %s it)" % ("used" if r.get("follow_uses_parked_data_connection") else "did not find")
             res.oracle_failures.append(f)
+        if parked:
+            res.count("parked_data_connection")
+            continue
         if k is not None and fc == 0:
             verb = sit[2].split(" ")[0].lower()
             lines.append("fault run %s %s %d" % (verb, shape_tok(sit[3], base[(i, be)]["calls"], verb), k))
@@ -311,7 +336,7 @@ def _one(inp):
     names = [s[0] for s in SITUATIONS]
     i = names.index(inp["situation"])
     fc = [n for n, _ in FAULT_CLASSES].index(inp.get("fault_class", "OSError"))
-    r = _job((i, inp["backend"], inp.get("fault_at_call"), inp.get("all_calls_of_kind_fail"), bool(inp.get("pipelined_with")), fc))
+    r = _job((i, inp["backend"], inp.get("fault_at_call"), inp.get("all_calls_of_kind_fail"), bool(inp.get("pipelined_with")), fc, bool(inp.get("parked_data_connection"))))
     return SITUATIONS[i], r
 
 
